@@ -280,6 +280,10 @@ func (s *VerticalFilterReader) hitExpr(expr influxql.Expr) bool {
 		case influxql.OR:
 			return s.hitExpr(n.LHS) || s.hitExpr(n.RHS)
 		case influxql.MATCHPHRASE:
+			// the filter says nothing about a column it does not cover: the phrase may be present.
+			if _, ok := s.splitMap[n.LHS.(*influxql.VarRef).Val]; !ok {
+				return true
+			}
 			val := n.RHS.(*influxql.StringLiteral).Val
 			hashValues := s.hashes[val]
 			isExist := false
